@@ -1,177 +1,13 @@
 package main
 
 import (
-	"fmt"
-	"go/ast"
-	"go/token"
 	"math/big"
-	"strings"
 )
 
-// C07: facts about internal/rsm/membership.go the membership model depends on.
+// C07: the config change enum (raftpb/types.go) the membership model depends on.
 
 func zFact(name string, f func() *big.Int) Fact {
 	return Fact{Name: name, Gen: func() string { return defZ(name, f()) }}
-}
-
-// c07Conjuncts flattens `accepted := a && !b && ...` of handleConfigChange and
-// resolves every variable to the membership method it was assigned from
-// (`x := m.method(cc)`). Result: (negated, method) in source order.
-func c07Conjuncts() [][2]string {
-	p := loadPkg("internal/rsm")
-	fn := p.Func("membership", "handleConfigChange")
-	from := map[string]string{}
-	var acc ast.Expr
-	for _, st := range fn.Body.List {
-		as, ok := st.(*ast.AssignStmt)
-		if !ok || as.Tok != token.DEFINE || len(as.Lhs) != 1 || len(as.Rhs) != 1 {
-			continue
-		}
-		lhs, ok := as.Lhs[0].(*ast.Ident)
-		if !ok {
-			continue
-		}
-		if lhs.Name == "accepted" {
-			acc = as.Rhs[0]
-			continue
-		}
-		if call, ok := as.Rhs[0].(*ast.CallExpr); ok {
-			if sel, ok := call.Fun.(*ast.SelectorExpr); ok {
-				if id, ok := sel.X.(*ast.Ident); ok && id.Name == "m" && len(call.Args) == 1 {
-					if a, ok := call.Args[0].(*ast.Ident); ok && a.Name == "cc" {
-						from[lhs.Name] = sel.Sel.Name
-					}
-				}
-			}
-		}
-	}
-	if acc == nil {
-		panic("handleConfigChange: `accepted := ...` not found")
-	}
-	var flat func(e ast.Expr) []ast.Expr
-	flat = func(e ast.Expr) []ast.Expr {
-		switch x := e.(type) {
-		case *ast.ParenExpr:
-			return flat(x.X)
-		case *ast.BinaryExpr:
-			if x.Op == token.LAND {
-				return append(flat(x.X), flat(x.Y)...)
-			}
-		}
-		return []ast.Expr{e}
-	}
-	var out [][2]string
-	for _, e := range flat(acc) {
-		neg := "false"
-		if u, ok := e.(*ast.UnaryExpr); ok && u.Op == token.NOT {
-			neg = "true"
-			e = u.X
-		}
-		id, ok := e.(*ast.Ident)
-		if !ok {
-			panic(fmt.Sprintf("handleConfigChange: conjunct at %s is not a variable", p.Fset.Position(e.Pos())))
-		}
-		meth, ok := from[id.Name]
-		if !ok {
-			panic("handleConfigChange: conjunct " + id.Name + " is not assigned from m.<method>(cc)")
-		}
-		out = append(out, [2]string{neg, meth})
-	}
-	return out
-}
-
-// c07ApplyShape: handleConfigChange calls m.apply(cc, index) exactly once, inside `if accepted`,
-// and returns `accepted`.
-func c07ApplyGuarded() bool {
-	p := loadPkg("internal/rsm")
-	fn := p.Func("membership", "handleConfigChange")
-	calls, guarded := 0, 0
-	isApply := func(n ast.Node) bool {
-		call, ok := n.(*ast.CallExpr)
-		if !ok {
-			return false
-		}
-		sel, ok := call.Fun.(*ast.SelectorExpr)
-		if !ok || sel.Sel.Name != "apply" {
-			return false
-		}
-		id, ok := sel.X.(*ast.Ident)
-		return ok && id.Name == "m"
-	}
-	ast.Inspect(fn.Body, func(n ast.Node) bool {
-		if isApply(n) {
-			calls++
-		}
-		if ifs, ok := n.(*ast.IfStmt); ok {
-			if c, ok := ifs.Cond.(*ast.Ident); ok && c.Name == "accepted" {
-				ast.Inspect(ifs.Body, func(k ast.Node) bool {
-					if isApply(k) {
-						guarded++
-					}
-					return true
-				})
-			}
-		}
-		return true
-	})
-	ret := false
-	if n := len(fn.Body.List); n > 0 {
-		if r, ok := fn.Body.List[n-1].(*ast.ReturnStmt); ok && len(r.Results) == 1 {
-			if id, ok := r.Results[0].(*ast.Ident); ok && id.Name == "accepted" {
-				ret = true
-			}
-		}
-	}
-	return calls == 1 && guarded == 1 && ret
-}
-
-// addressEqual(a, b) is strings.EqualFold(strings.TrimSpace(a), strings.TrimSpace(b))
-func c07AddressEqualShape() bool {
-	p := loadPkg("internal/rsm")
-	fn := p.Func("", "addressEqual")
-	if len(fn.Body.List) != 1 {
-		return false
-	}
-	r, ok := fn.Body.List[0].(*ast.ReturnStmt)
-	if !ok || len(r.Results) != 1 {
-		return false
-	}
-	isCall := func(e ast.Expr, pkg, name string, nargs int) (*ast.CallExpr, bool) {
-		c, ok := e.(*ast.CallExpr)
-		if !ok || len(c.Args) != nargs {
-			return nil, false
-		}
-		s, ok := c.Fun.(*ast.SelectorExpr)
-		if !ok || s.Sel.Name != name {
-			return nil, false
-		}
-		id, ok := s.X.(*ast.Ident)
-		return c, ok && id.Name == pkg
-	}
-	ef, ok := isCall(r.Results[0], "strings", "EqualFold", 2)
-	if !ok {
-		return false
-	}
-	params := []string{}
-	for _, f := range fn.Type.Params.List {
-		for _, n := range f.Names {
-			params = append(params, n.Name)
-		}
-	}
-	if len(params) != 2 {
-		return false
-	}
-	for i, a := range ef.Args {
-		ts, ok := isCall(a, "strings", "TrimSpace", 1)
-		if !ok {
-			return false
-		}
-		id, ok := ts.Args[0].(*ast.Ident)
-		if !ok || id.Name != params[i] {
-			return false
-		}
-	}
-	return true
 }
 
 func init() {
@@ -180,19 +16,5 @@ func init() {
 		zFact("cc_remove_node", func() *big.Int { return loadPkg("raftpb").Const("RemoveNode") }),
 		zFact("cc_add_non_voting", func() *big.Int { return loadPkg("raftpb").Const("AddNonVoting") }),
 		zFact("cc_add_witness", func() *big.Int { return loadPkg("raftpb").Const("AddWitness") }),
-		{Name: "accepted_conjuncts", Gen: func() string {
-			var items []string
-			for _, c := range c07Conjuncts() {
-				items = append(items, fmt.Sprintf("(%s, \"%s\"%%string)", c[0], c[1]))
-			}
-			return "(* handleConfigChange: accepted := <conjunction>; (negated, membership method) in source order *)\n" +
-				"Definition accepted_conjuncts : list (bool * string) :=\n  [" + strings.Join(items, ";\n   ") + "].\n"
-		}},
-		{Name: "apply_only_when_accepted", Gen: func() string {
-			return defBool("apply_only_when_accepted", c07ApplyGuarded())
-		}},
-		{Name: "address_equal_is_equalfold_of_trimspace", Gen: func() string {
-			return defBool("address_equal_is_equalfold_of_trimspace", c07AddressEqualShape())
-		}},
 	}})
 }
